@@ -222,6 +222,17 @@ func (c *ctx) linkCase(cs M) {
 			}
 			ev := validateEvent(which, &r, q, dev)
 			c.emit(ev)
+			{ // a receiver that validates for the other direction (same key material) must reject: the direction is authenticated
+				q2, other := q, "up"
+				if up {
+					other = "down"
+					q2.skey = q.fkey
+				} else {
+					q2.fkey = q.skey
+				}
+				rc := valToPhy(cloneM(phyToVal(&r)).(M), false)
+				c.emit(validateEvent(other, rc, q2, "crossdir"))
+			}
 			if ev["err"] != "" {
 				verdict = "err"
 			} else if ev["ok"].(bool) {
